@@ -946,6 +946,15 @@ def rule_r10(prog, res) -> None:
         res.ok("C02.R10", "no byteswap", "no byte-order conversion in the package", nontrivial=False)
 
 
+def rule_r11(prog, res) -> None:
+    """every ingest pipeline honours the caller's options (shared with C09.R7): a parameter is handed on to the
+    component that implements it, in each variant (sequential, multiprocessing, MPI) and for each input format"""
+    from . import c09
+    from .common import shared_rule
+
+    shared_rule(res, c09.rule_r7, "C09", "C09.R7", "C02.R11")
+
+
 RULES = [
     ("C02.R1", rule_r1, QUICK),
     ("C02.R2", rule_r2, QUICK),
@@ -957,4 +966,5 @@ RULES = [
     ("C02.R8", rule_r8, QUICK),
     ("C02.R9", rule_r9, QUICK),
     ("C02.R10", rule_r10, QUICK),
+    ("C02.R11", rule_r11, QUICK),
 ]
